@@ -51,7 +51,7 @@ INVARIANTS
 """
 
 GAPS = ["Gap_Junk", "Gap_GlobalVpn"]
-STRICT = ["C17_ListVrf", "C17_VrfVisible", "C17_VrfExport", "C17_CeExport", "C17_CeComplete", "C17_RtcExact"]
+STRICT = ["C17_ListVrf", "C17_VrfVisible", "C17_VrfExport", "C17_CeExport", "C17_CeComplete", "C17_RtcExact", "C17_OwnMemberships"]
 
 # the known (unrepaired) findings of C17 and the mechanism switches that reproduce them
 KF_DEFECTS = {"KF-C17-rtc-withdraw": ["D1", "D2"], "KF-C17-ce-stale": ["D3"], "KF-C17-ce-prefix-collision": ["D4"]}
@@ -275,6 +275,9 @@ def groups(thorough, seed):
                               only=("VAnn", "VWd", "MAnn", "MWd"))))
     life = ("AddVrf", "DelVrf", "ApiAdd", "ApiDel", "VAnn", "VWd")
     g.append(("exh-life", dict(warm="life", alpha="life", steps=9 + (3 if thorough else 2), defer=0, addpath=False, exh=True, only=life)))
+    # two VRFs configured with ONE route distinguisher and overlapping import targets, deleted / re-added in every order
+    g.append(("exh-twin", dict(warm="twin", alpha="twin", steps=6 + (4 if thorough else 3), defer=0, addpath=False, exh=True,
+                               only=("AddVrf", "DelVrf", "VAnn", "VWd"))))
     g.append(("exh-life2", dict(warm="life2", alpha="life", steps=10 + 2, defer=0, addpath=False, exh=True, only=life)))
     return g
 
